@@ -1341,7 +1341,7 @@ class Gen:
         if p is None:
             return self.g_write()
         op = {"op": "read", "path": p}
-        if self.w.files[p]["fmt"] not in ("npz", "parquet", "csv"):
+        if self.w.files[p]["fmt"] not in ("npz", "parquet"):
             f = self.fault(reading=True)
             if f:
                 op["fault"] = f
